@@ -80,25 +80,9 @@ def _scalar_xy(d):
 @st.composite
 def analyzer_cases(draw, tier="quick", histories=False):
     big = tier == "thorough"
-    if histories:
-        from checks import c05
-
-        d = draw(c05.tracking_histories(tier))
-    else:
-        d = draw(MG.manager_cases(tier, tasks=("detection", "tracking"), max_frames=6 if big else 4))
-    _scalar_xy(d)
-    nf = len(d["frames"])
-    ns = draw(st.integers(1, min(3, nf)))
-    cuts = sorted(draw(st.lists(st.integers(1, nf - 1), min_size=ns - 1, max_size=ns - 1, unique=True))) if ns > 1 else []
-    split = [b - a for a, b in zip([0] + cuts, cuts + [nf])]
-    if draw(st.integers(0, 11)) == 0:
-        split.insert(draw(st.integers(0, len(split))), 0)  # a scene without frames
-    vel = draw(st.sampled_from(["none", "none", "all", "some"]))
-    if vel != "none":
-        for f in d["frames"]:
-            for o in f["gt"] + f["est"]:
-                if vel == "all" or draw(st.booleans()):
-                    o["vel"] = [draw(GEN.fl(-15.0, 15.0)), draw(GEN.fl(-15.0, 15.0)), 0.0]
+    # small choices first (the scene descriptors below use most of an example's entropy budget)
+    nad = draw(st.sampled_from([1, 3, 9]))
+    vel = draw(st.sampled_from(["none", "all", "some"]))
     lo = draw(st.sampled_from([0.0, 0.0, 5.0, 12.0, 25.0]))
     sel = {
         "label": draw(st.integers(0, 5)),
@@ -111,7 +95,42 @@ def analyzer_cases(draw, tier="quick", histories=False):
         "dist": [lo, lo + draw(st.sampled_from([8.0, 20.0, 45.0, 200.0]))],
         "analyze": draw(st.sampled_from(["scene", "area", "dist", "label", "scene+area"])),
     }
-    return {"case": d, "split": split, "nad": draw(st.sampled_from([1, 3, 9])), "sel": sel}
+    ns = draw(st.integers(1, 3))
+    cut_seed = [draw(st.integers(0, 5)) for _ in range(2)]
+    empty_scene = draw(st.integers(0, 11))
+    if histories:
+        from checks import c05
+
+        d = draw(c05.tracking_histories(tier))
+    else:
+        d = draw(MG.manager_cases(tier, tasks=("detection", "tracking"), max_frames=6 if big else 4))
+    _scalar_xy(d)
+    nf = len(d["frames"])
+    ns = min(ns, nf)
+    cuts = []
+    for c in cut_seed[: ns - 1]:
+        rem = [x for x in range(1, nf) if x not in cuts]
+        if rem:
+            cuts.append(rem[c % len(rem)])
+    cuts.sort()
+    split = [b - a for a, b in zip([0] + cuts, cuts + [nf])]
+    if empty_scene == 0:
+        split.insert(cut_seed[0] % (len(split) + 1), 0)  # a scene without frames
+    if vel != "none":
+        for f in d["frames"]:
+            for o in f["gt"] + f["est"]:
+                if vel == "all" or draw(st.booleans()):
+                    o["vel"] = [draw(st.integers(-60, 60)) / 4.0, draw(st.integers(-60, 60)) / 4.0, 0.0]  # (cheap draws: the histories are near the entropy limit)
+    if not histories:
+        # FP-labelled ground truths are exempt from every range filter: occasionally put one outside the analyzer's
+        # area grid (|x| > max_x), so that rows without an area occur
+        grid_x = float(d["mgr"]["max_x"][0]) if d["mgr"]["kind"] == "xy" else 100.0
+        for f in d["frames"]:
+            fps = [g for g in f["gt"] if g["label"] == "false_positive"]
+            if fps and draw(st.integers(0, 2)) == 0:
+                g = fps[draw(st.integers(0, len(fps) - 1))]
+                g["p"] = [draw(st.sampled_from([-1.0, 1.0])) * (grid_x + draw(GEN.fl(1.0, 40.0))), g["p"][1], g["p"][2]]
+    return {"case": d, "split": split, "nad": nad, "sel": sel}
 
 
 # ------------------------------------------------------------------------------------------------
@@ -147,6 +166,8 @@ def _run_scene(ctx, d):
     mgr = _make_manager(d)
     gt_frames = MG.build_gt_frames(d)
     mgr.ground_truth_frames = gt_frames
+    # snapshot of the object lists (identity): the pre-fix manager overwrote FrameGroundTruth.objects (C13's finding)
+    gt_lists = [list(fr.objects) for fr in gt_frames]
     est_lists, results = [], []
     for i, f in enumerate(d["frames"]):
         t = D.T0 + i * 100_000
@@ -165,7 +186,7 @@ def _run_scene(ctx, d):
         if res is None:
             return None
         results.append(res)
-    return {"mgr": mgr, "gt_frames": gt_frames, "est_lists": est_lists, "results": results}
+    return {"mgr": mgr, "gt_frames": gt_frames, "gt_lists": gt_lists, "est_lists": est_lists, "results": results}
 
 
 @contextlib.contextmanager
@@ -362,7 +383,7 @@ def _body(ctx, d):
     for s, (dd, run) in enumerate(scenes):
         for i, f in enumerate(dd["frames"]):
             res = run["results"][i]
-            items = _expected_items(ctx, f, res, run["gt_frames"][i].objects, run["est_lists"][i])
+            items = _expected_items(ctx, f, res, run["gt_lists"][i], run["est_lists"][i])
             guu = {g["uuid"]: j for j, g in enumerate(f["gt"])}
             euu = {e["uuid"]: j for j, e in enumerate(f["est"])}
             exp = sorted(((st_, f["gt"][a]["uuid"] if a is not None else None, f["est"][b]["uuid"] if b is not None else None) for st_, a, b in items), key=str)
@@ -422,10 +443,11 @@ def _body(ctx, d):
             "FN": an.num_fn,
         }
     except Exception as e:  # noqa: BLE001 - classified below, never swallowed
-        if empty:
+        if empty and len(an.df) == 0 and isinstance(e, TypeError) and "MultiIndex" in str(e):
+            # known finding: exactly the row-less table (nothing tabulated) and exactly this exception
             ctx.violate("empty-table-counts-raise", f"num_* on a table without rows raised {type(e).__name__}: {e}")
         else:
-            ctx.violate(f"crash:num_*:{type(e).__name__}", f"num_* raised {type(e).__name__}: {e}")
+            ctx.violate(f"crash:num_*:{type(e).__name__}", f"num_* raised {type(e).__name__}: {e} (table with {len(order)} row pairs)")
     if num is not None:
         want = {"gt": len(gt_rows), "est": len(est_rows), **cnt}
         ctx.require(num == want, "num-properties", lambda: f"num_* properties {num}, table {want}")
@@ -513,10 +535,10 @@ def _body(ctx, d):
                 ctx.require(own, "row-area", lambda: f"{what}: area {rec['area']} but position {o['p'][:2]} lies in rectangle(s) {containing(o['p'][0], o['p'][1])[0]} of {rects}")
 
     # ---- paired rows: errors, summaries, ratios, confusion matrix -------------------------------------------
-    _analysis(ctx, an, pairs, order, targets, "all", None)
+    _analysis(ctx, an, pairs, order, targets, "all", None, case["policy"])
 
     # ---- selections ------------------------------------------------------------------------------------------------
-    _selections(ctx, an, pairs, order, targets, sel, scene_key, nad)
+    _selections(ctx, an, pairs, order, targets, sel, scene_key, nad, case["policy"])
 
     # ---- per-object status tallies ---------------------------------------------------------------------------------
     _object_status(ctx, scenes, get_object_status)
@@ -584,7 +606,7 @@ def _summary_matches(row, exp):
     return True
 
 
-def _analysis(ctx, an, pairs, order, targets, tag, df):
+def _analysis(ctx, an, pairs, order, targets, tag, df, policy):
     """`order`: the pair numbers of the selection `df` (None = the whole table)."""
     paired = _paired(pairs, order)
     ctx.cls(f"analysis_{tag}")
@@ -644,7 +666,7 @@ def _analysis(ctx, an, pairs, order, targets, tag, df):
     with ctx.under_test("summarize_ratio"):
         rt = an.summarize_ratio(**kw)
     if rt is not None:
-        _check_ratio(ctx, rt, pairs, order, targets, tag)
+        _check_ratio(ctx, rt, pairs, order, targets, tag, policy)
 
     # confusion matrix
     cm = "x"
@@ -679,7 +701,7 @@ def _analysis(ctx, an, pairs, order, targets, tag, df):
                     ctx.cls("confusion_off_diagonal")
 
 
-def _check_ratio(ctx, rt, pairs, order, targets, tag):
+def _check_ratio(ctx, rt, pairs, order, targets, tag, policy):
     rows = {k_: v for k_, v in zip(rt.index, rt.to_dict("records"))}
     gts = [pairs[i]["ground_truth"] for i in order if _valid(pairs[i]["ground_truth"])]
     ests = [pairs[i]["estimation"] for i in order if _valid(pairs[i]["estimation"])]
@@ -705,7 +727,19 @@ def _check_ratio(ctx, rt, pairs, order, targets, tag):
             v = row.get(key)
             ctx.require(not _null(v) and _close(v, exp[key], 1e-12, 1e-12), "summarize-ratio", lambda: f"[{tag}] {key} rate of {lab} = {v}, counts give {exp[key]} ({tp} TP, {fp} FP estimates, {n} GT rows)")
             if not _null(v) and not (-1e-9 <= float(v) <= 1.0 + 1e-9):
-                ctx.violate("ratio-outside-unit-interval", f"[{tag}] {key} rate of label {lab} = {v}: {tp} TP estimates labelled {lab} over {n} ground truths labelled {lab}")
+                # known finding only in exactly this shape: a per-label TP rate that equals the recomputed quotient
+                # (TP estimate rows by ESTIMATE label / GT rows by GT label, asserted just above) under a policy that
+                # allows cross-label TPs, with such a TP (estimate labelled `lab`, GT labelled otherwise) in the selection
+                cross = [
+                    i
+                    for i in order
+                    if _valid(pairs[i]["ground_truth"]) and _valid(pairs[i]["estimation"]) and pairs[i]["estimation"]["status"] == "TP" and pairs[i]["estimation"]["label"] == lab and pairs[i]["ground_truth"]["label"] != lab
+                ]
+                if key == "TP" and lab != "ALL" and policy in ("ALLOW_ANY", "ALLOW_UNKNOWN") and cross and _close(v, exp[key], 1e-12, 1e-12):
+                    ctx.cls("per_label_tp_rate_above_one")
+                    ctx.violate("ratio-outside-unit-interval", f"[{tag}] TP rate of label {lab} = {v}: {tp} TP estimates labelled {lab} (of which {len(cross)} matched to a ground truth of another label under {policy}) over {n} ground truths labelled {lab}")
+                else:
+                    ctx.violate("ratio-out-of-range", f"[{tag}] {key} rate of {lab} = {v} under policy {policy}")
 
 
 # ------------------------------------------------------------------------------------------------
@@ -720,7 +754,7 @@ def _match(rec, key, want):
     return (not _null(v)) and v == want
 
 
-def _selections(ctx, an, pairs, order, targets, sel, scene_key, nad):
+def _selections(ctx, an, pairs, order, targets, sel, scene_key, nad, policy):
     lab = targets[sel["label"] % len(targets)]
     lab2 = targets[sel["label2"] % len(targets)]
     keys = [k_ for k_ in scene_key if k_ is not None]
@@ -739,7 +773,10 @@ def _selections(ctx, an, pairs, order, targets, sel, scene_key, nad):
         {"label": lab, "scene": scene},
         {"area": area, "status": sel["status"], "label": lab2},
     ]
-    for q in queries:
+    if ctx.tier != "thorough":
+        # quick tier: three of the nine selections per case (pandas selections cost ~4 ms each)
+        queries = [queries[(sel["row"] + 3 * j + j) % len(queries)] for j in range(3)]
+    for qn, q in enumerate(queries):
         tag = ",".join(f"{k_}={v}" for k_, v in q.items())
         # get(): whole pairs
         lower = [i for i in order if any(_valid(pairs[i][kind]) and all(_match(pairs[i][kind], k_, v) for k_, v in q.items()) for kind in KINDS)]
@@ -770,6 +807,8 @@ def _selections(ctx, an, pairs, order, targets, sel, scene_key, nad):
                 ctx.require(n == len(exp), "selection-rows", lambda: f"get_num_{kind}({tag}) = {n}, rows satisfying the selection {len(exp)}")
             if out is not None:
                 ctx.require(list(out.index) == exp, "selection-rows", lambda: f"{fn}({tag}) returned rows {list(out.index)}, rows satisfying the selection {exp}")
+        if qn > 0 and ctx.tier != "thorough":
+            continue
         with ctx.under_test(f"get_num_tp({'/'.join(q)})"):
             for s_, fn, kind in (("TP", an.get_num_tp, "estimation"), ("FP", an.get_num_fp, "estimation"), ("TN", an.get_num_tn, "ground_truth"), ("FN", an.get_num_fn, "ground_truth")):
                 exp_n = sum(1 for i in order if _valid(pairs[i][kind]) and pairs[i][kind]["status"] == s_ and all(_match(pairs[i][kind], k_, v) for k_, v in q.items()))
@@ -831,7 +870,7 @@ def _selections(ctx, an, pairs, order, targets, sel, scene_key, nad):
             df = an.filter_by_distance(kw["distance"], df)
     if df is None:
         return
-    _check_ratio(ctx, res.score, pairs, sub, targets, f"analyze({how})")
+    _check_ratio(ctx, res.score, pairs, sub, targets, f"analyze({how})", policy)
     paired = _paired(pairs, sub)
     rows = {k_: v for k_, v in zip(res.error.index, res.error.to_dict("records"))}
     for col in SUMMARY_COLS:
@@ -844,7 +883,7 @@ def _selections(ctx, an, pairs, order, targets, sel, scene_key, nad):
     else:
         ctx.require(cm is None, "analyze-selection", f"analyze({kw}).confusion_matrix without paired rows")
     if sel["row"] % 3 == 0:
-        _analysis(ctx, an, pairs, sub, targets, "selection", df)
+        _analysis(ctx, an, pairs, sub, targets, "selection", df, policy)
 
 
 # ------------------------------------------------------------------------------------------------
@@ -864,7 +903,7 @@ def _object_status(ctx, scenes, get_object_status):
         for i, f in enumerate(dd["frames"]):
             res = run["results"][i]
             n_crit += len(res.frame_ground_truth.objects)
-            for st_, a, b in _expected_items(ctx, f, res, run["gt_frames"][i].objects, run["est_lists"][i]):
+            for st_, a, b in _expected_items(ctx, f, res, run["gt_lists"][i], run["est_lists"][i]):
                 if a is None:
                     continue
                 u = f["gt"][a]["uuid"]
@@ -899,11 +938,11 @@ def _object_status(ctx, scenes, get_object_status):
 # ------------------------------------------------------------------------------------------------
 
 
-@CHECK.given("tables", lambda tier: analyzer_cases(tier), quick=110, thorough=3200)
+@CHECK.given("tables", lambda tier: analyzer_cases(tier), quick=100, thorough=3200)
 def tables(ctx, d):
     _body(ctx, d)
 
 
-@CHECK.given("tracking_tables", lambda tier: analyzer_cases(tier, histories=True), quick=40, thorough=1200)
+@CHECK.given("tracking_tables", lambda tier: analyzer_cases(tier, histories=True), quick=35, thorough=1200)
 def tracking_tables(ctx, d):
     _body(ctx, d)
